@@ -611,6 +611,11 @@ impl WebSocketClient {
             .send(WsMessage::Binary(bytes))
             .await
             .map_err(websocket_transport_error)?;
+        #[cfg(feature = "verif-hooks")]
+        {
+            drop(writer);
+            crate::verif::probe("client.written");
+        }
         Ok(())
     }
 
